@@ -45,7 +45,7 @@ func init() { register(c12{}) }
 func (c12) ID() string    { return "C12" }
 func (c12) Level() string { return "exploration" }
 func (c12) Rule() string {
-	return "one case = 1..3 middlewares alive at once (configs possibly sharing the very same Config value) + a history of 5..40 steps mixing arbitrary requests (incl. duplicates and requests derived from other middlewares' configurations) with memory-mutation faults: scribbling over every element and the spare capacity of every slice of the Config passed in, of Config() results (immediately and kept for later), flipping scalars of a Config passed by pointer, and a wrapped handler scribbling over every request- and response-header slice it can reach; after every step the probe suites of all middlewares (in a plan-derived permuted order) are compared with the baseline recorded before any fault; distinct = distinct plan hash; non-trivial = at least one mutation fault fired"
+	return "one case = 1..3 middlewares alive at once (configs possibly sharing the very same Config value) + a history of 5..40 steps mixing arbitrary requests (incl. duplicates and requests derived from other middlewares' configurations) with memory-mutation faults: scribbling over every element and the spare capacity of every slice of the Config passed in, of Config() results (immediately and kept for later), flipping scalars of a Config passed by pointer, and a wrapped handler scribbling over every request- and response-header slice it can reach; the scribbler writes a sentinel or values that later requests actually carry (near-miss origins, *, true, ...); the caller also scribbles over a request after it was served, reconfigures with a fresh copy of the same configuration, reconfigures to another configuration (from then on the middleware must equal a FRESH one of that configuration) and edits the Config it passed before in place and passes the same pointer again; after every step the probe suites of all middlewares (in a plan-derived permuted order) are compared with their reference; distinct = distinct plan hash; non-trivial = at least one mutation fault fired"
 }
 func (c12) Budget(tier string) (int, time.Duration) {
 	if tier == "thorough" {
